@@ -22,15 +22,18 @@ struct Obs {
     flags: u64,
     rsp: u64,
     ss: u16,
+    /// which of the harness's two general handlers ran (1 = `general`, 2 = `general_other`)
+    who: u8,
 }
 
-static mut OBS: Obs = Obs { calls: 0, index: 0, has_err: false, err: 0, rip: 0, cs: 0, flags: 0, rsp: 0, ss: 0 };
+static mut OBS: Obs = Obs { calls: 0, index: 0, has_err: false, err: 0, rip: 0, cs: 0, flags: 0, rsp: 0, ss: 0, who: 0 };
 
 #[inline(never)]
 fn general(frame: InterruptStackFrame, index: u8, error_code: Option<u64>) {
     unsafe {
         let o = &mut *core::ptr::addr_of_mut!(OBS);
         o.calls += 1;
+        o.who = 1;
         o.index = index;
         o.has_err = error_code.is_some();
         o.err = error_code.unwrap_or(0);
@@ -47,6 +50,25 @@ fn general(frame: InterruptStackFrame, index: u8, error_code: Option<u64>) {
             irqsim::escape();
         }
     }
+}
+
+/// a second general handler, installed through its own macro invocation (a kernel has one for exceptions and one for
+/// device interrupts, or one per IDT): the stubs of each installation call the handler of that installation
+#[inline(never)]
+fn general_other(frame: InterruptStackFrame, index: u8, error_code: Option<u64>) {
+    let _ = (&frame, error_code);
+    unsafe {
+        let o = &mut *core::ptr::addr_of_mut!(OBS);
+        o.calls += 1;
+        o.who = 2;
+        o.index = index;
+        if index == 8 || index == 18 {
+            irqsim::escape();
+        }
+    }
+}
+fn install_all_other(idt: &mut InterruptDescriptorTable) {
+    set_general_handler!(idt, general_other);
 }
 
 fn install_range(idt: &mut InterruptDescriptorTable, lo: u8, hi: u8) {
@@ -285,6 +307,9 @@ fn own_flags() -> u64 {
     v
 }
 
+/// which of the two general handlers the stubs being entered belong to
+static EXPECT_WHO: core::sync::atomic::AtomicU8 = core::sync::atomic::AtomicU8::new(1);
+
 fn enter(rep: &mut Report, r: &mut Rng, stubs: &[u64; 256], v: usize, scratch: &Stack, resume: &Stack, cs: u16, ss: u16) {
     rep.eval();
     let base = own_flags() & !(ARITH | 0x400 | (1 << 21) | NT_AC) | 0x2;
@@ -316,10 +341,15 @@ fn enter(rep: &mut Report, r: &mut Rng, stubs: &[u64; 256], v: usize, scratch: &
     if o.index as usize != v {
         rep.violation(&format!("stub|{}|reports-other-vector", kind), ctx());
     }
-    if o.has_err != has_error_code(v) || (o.has_err && o.err != err) {
+    let expect_who = EXPECT_WHO.load(core::sync::atomic::Ordering::Relaxed);
+    if o.who != expect_who {
+        rep.violation(&format!("stub|{}|calls-the-general-handler-of-another-installation", kind), ctx());
+        return;
+    }
+    if expect_who == 1 && (o.has_err != has_error_code(v) || (o.has_err && o.err != err)) {
         rep.violation(&format!("stub|{}|error-code-wrong", kind), ctx());
     }
-    if o.rip != p.resume_rip || o.cs != cs || o.flags != flags || o.rsp != frame_rsp || o.ss != ss {
+    if expect_who == 1 && (o.rip != p.resume_rip || o.cs != cs || o.flags != flags || o.rsp != frame_rsp || o.ss != ss) {
         rep.violation(&format!("stub|{}|frame-contents-differ-from-pushed", kind), ctx());
     }
     if diverges(v) {
@@ -344,10 +374,10 @@ extern "C" fn do_iretq(p: *mut Params) -> ! {
     let p = unsafe { &*p };
     if p.err & 1 == 1 {
         // the wrapper type: built by its own constructor, iretq reached through Deref
-        let f = InterruptStackFrame::new(VirtAddr::new(p.resume_rip), SegmentSelector(p.cs as u16), RFlags::from_bits_truncate(p.flags), VirtAddr::new(p.frame_rsp), SegmentSelector(p.ss as u16));
+        let f = InterruptStackFrame::new(VirtAddr::new(p.resume_rip), SegmentSelector(p.cs as u16), RFlags::from_bits_truncate(p.flags), unsafe { VirtAddr::new_unsafe(p.frame_rsp) }, SegmentSelector(p.ss as u16));
         unsafe { f.iretq() }
     }
-    let f = InterruptStackFrameValue::new(VirtAddr::new(p.resume_rip), SegmentSelector(p.cs as u16), RFlags::from_bits_truncate(p.flags), VirtAddr::new(p.frame_rsp), SegmentSelector(p.ss as u16));
+    let f = InterruptStackFrameValue::new(VirtAddr::new(p.resume_rip), SegmentSelector(p.cs as u16), RFlags::from_bits_truncate(p.flags), unsafe { VirtAddr::new_unsafe(p.frame_rsp) }, SegmentSelector(p.ss as u16));
     unsafe { f.iretq() }
 }
 
@@ -355,7 +385,14 @@ fn iretq_case(rep: &mut Report, r: &mut Rng, scratch: &Stack, resume: &Stack, cs
     rep.eval();
     let base = own_flags() & !(ARITH | 0x400 | (1 << 21) | NT_AC) | 0x2;
     let flags = base | (r.next() & ARITH) | if r.chance(1, 6) { 0x400 } else { 0 } | if r.chance(1, 3) { 1 << 21 } else { 0 } | if r.chance(1, 3) { r.next() & NT_AC } else { 0 };
-    let frame_rsp = resume.lo() + 4096 + r.below(0x6000);
+    // any 64-bit stack pointer: iretq loads it as it is (the landing pad switches stacks before using it)
+    let frame_rsp = match r.below(8) {
+        0 => 0x0000_8000_0000_0000 | (r.next() & 0xfff8),
+        1 => 1u64 << 63,
+        2 => 0xffff_7fff_ffff_fff8,
+        3 => r.next() & !7,
+        _ => resume.lo() + 4096 + r.below(0x6000),
+    };
     let wrapper = r.chance(1, 2);
     // frame values are plain data: the wrapper's constructor and its volatile mutable view store / show exactly the fields
     {
@@ -429,6 +466,27 @@ pub fn run(a: &Args, rep: &mut Report) {
         }
     }
     rep.exhaustive.push("simulated delivery into all 248 non-reserved vectors (several frames each)".into());
+    // a second installation with another general handler (into another table): its stubs call that handler, and the stubs
+    // installed first keep calling the first one
+    {
+        let mut idt2 = Box::new(InterruptDescriptorTable::new());
+        install_all_other(&mut idt2);
+        let b2 = bytes_of(&idt2);
+        let mut stubs2 = [0u64; 256];
+        for v in 0..256 {
+            let (off, _, present, _) = gate(&b2, v);
+            if present {
+                stubs2[v] = off;
+            }
+        }
+        for v in (0..256usize).filter(|v| !reserved(*v) && (*v < 34 || v % 29 == 0 || *v == 255)) {
+            EXPECT_WHO.store(2, core::sync::atomic::Ordering::Relaxed);
+            enter(rep, &mut r, &stubs2, v, &scratch, &resume, cs, ss);
+            EXPECT_WHO.store(1, core::sync::atomic::Ordering::Relaxed);
+            enter(rep, &mut r, &stubs, v, &scratch, &resume, cs, ss);
+        }
+        rep.class("enter|two-installations-with-different-handlers");
+    }
     let n = a.budget(2_000, 1_000_000);
     for _ in 0..n {
         iretq_case(rep, &mut r, &scratch, &resume, cs, ss);
